@@ -3,7 +3,7 @@ from __future__ import annotations
 
 import sys
 
-from htmltools import HTML, Tag
+from htmltools import HTML, HTMLDependency, MetadataNode, Tag, TagList
 
 from engine.api import harness
 from oracles.util import RH
@@ -23,7 +23,10 @@ class Bad:
 
 _RH = RH("<r>")
 _TG = Tag("em", "x")
-N_KIND = 7
+_DEP = HTMLDependency("shown", "1.0", script={"src": "s.js"}, head="<!--h-->")
+_MD = MetadataNode()
+_TL = TagList("l1", Tag("u"))
+N_KIND = 10
 
 
 def value(kind: int, level: int):
@@ -39,6 +42,12 @@ def value(kind: int, level: int):
         return _RH
     if kind == 5:
         return _TG
+    if kind == 7:
+        return _DEP
+    if kind == 8:
+        return _MD
+    if kind == 9:
+        return _TL
     return Bad()
 
 
@@ -54,6 +63,12 @@ def expect(kind: int, level: int):
         return [HTML("<r>")]
     if kind == 5:
         return [_TG]
+    if kind == 7:
+        return [_DEP]          # a displayed dependency is kept as the metadata node it is
+    if kind == 8:
+        return [_MD]
+    if kind == 9:
+        return ["l1", _TL[1]]  # a displayed list is spliced like any list child
     return "TypeError"
 
 
@@ -167,7 +182,7 @@ def _pre(B, depth, ka1, kb1, e1, ka2, kb2, e2, ka3, kb3, e3, reenter):
          bounds={"quick": {"D": 2, "D3_SMALL": True}, "thorough": {"D": 3, "D3_SMALL": True}},
          shard=lambda B: [{"depth": d, "ka1": k, "e1": e} for d in range(1, B["D"] + 1) for k in range(N_KIND) for e in range(4)
                           if not (d == 3 and k not in (2, 4))],
-         sel=["depth: nesting of with-blocks", "ka*, kb*: displayed value kinds per level (None, Ellipsis, str, number, _repr_html_ object, tag, invalid)",
+         sel=["depth: nesting of with-blocks", "ka*, kb*: displayed value kinds per level (None, Ellipsis, str, number, _repr_html_ object, tag, invalid, dependency, bare metadata node, TagList)",
               "e*: exception raised before / after the inner block, or a BaseException that is not an Exception", "reenter: level at which the active tag is re-entered"],
          targets=["htmltools._core.Tag.__enter__", "htmltools._core.Tag.__exit__", "htmltools._core.wrap_displayhook_handler"],
          stubs=["sys.displayhook is replaced by a recording stub for the duration of a path and restored afterwards"],
